@@ -1,5 +1,5 @@
 (** C18 — Build events and target output follow a well-formed protocol.  Statements only. *)
-From Dawn Require Import Base.Bytes Build.Model Build.Proofs Build.LineWriter.
+From Dawn Require Import Base.Bytes Build.Model Build.Proofs Build.Proofs_Fresh Build.Proofs_Noop Build.LineWriter.
 
 (** In every build (any mode, any failure pattern, also one cut short by a crash) the events of one label are:
     nothing (never visited, or a dependency failed with an ordinary error), one up-to-date event, evaluating followed by
@@ -27,9 +27,18 @@ Theorem second_run_repeats_nothing :
 Proof. exact LineWriter.lw_run_twice. Qed.
 Print Assumptions second_run_repeats_nothing.
 
+(** 'evaluating' is reported exactly when the body runs: in a build that is neither dry nor killed, a function target's
+    body is executed iff its evaluating event is delivered (in a dry run no body runs at all: C13). *)
+Theorem evaluating_iff_body_runs :
+  forall c w l0 l, c_dry c = false -> c_crashed c = false ->
+    (In l (o_ran (build c w l0)) <->
+     (exists d, lookup l (w_proj w) = Some d /\ is_fn d = true) /\ In (EEvaluating l) (o_events (build c w l0))).
+Proof. exact Proofs_Noop.evaluating_iff_body_runs. Qed.
+Print Assumptions evaluating_iff_body_runs.
+
 (** NOT YET PROVED as theorems (decided on the implementation by the harness oracles of the same names):
     run_done_once_last (RunDone is emitted by Project.Run after runner.Run returns: outside the engine model),
-    prints_inside_window, evaluating_iff_body_or_dry. *)
+    prints_inside_window (Print events are produced by the body, outside the model). *)
 
 Example lines_example :
   lw_run [] [[97; 98]; [10; 99]; [10; 10; 100]] = ([], [[97; 98]; [99]; []; [100]]).
